@@ -17,6 +17,7 @@ def showRes : Res → String
   | .recvErr => "recverr"
   | .opSendErr => "opsenderr"
   | .scrubSendErr => "scrubsenderr"
+  | .decodeErr => "decode"
 
 def parseOptNat (s : String) : Option (Option Nat) :=
   if s == "none" then some none else s.toNat?.map some
